@@ -1,0 +1,63 @@
+// Copyright (c) 2026 10X Genomics, Inc. All rights reserved.
+
+//go:build verif
+
+package core
+
+import (
+	"bytes"
+	"fmt"
+	"os"
+	"path"
+)
+
+// Exports for the external verification harness (property C10): the argument
+// resolver of a node, reached without running a pipestance.  This file is only
+// compiled with `-tags verif`.
+
+// VerifC10WriteOuts gives the node fqid one fork (if it has none) and writes
+// content as that fork's _outs file.
+func (w *VerifWorld) VerifC10WriteOuts(fqid string, content []byte) error {
+	n := w.top.allNodes[fqid]
+	if n == nil {
+		return fmt.Errorf("no node %s", fqid)
+	}
+	if len(n.forks) == 0 {
+		if _, err := w.AddFork(fqid, nil, 0); err != nil {
+			return err
+		}
+	}
+	f := n.forks[0]
+	if err := os.MkdirAll(f.metadata.path, 0o755); err != nil {
+		return err
+	}
+	f.metadata.uncache(OutsFile)
+	return os.WriteFile(path.Join(f.metadata.path, "_outs"), content, 0o644)
+}
+
+// VerifC10ResolveInputs calls Node.resolveInputs for the node fqid and
+// returns the names of the arguments which remained split, the resolved
+// arguments as JSON and the text of the error.
+func (w *VerifWorld) VerifC10ResolveInputs(fqid string, keepSplit bool) (mapped []string, result string, errText string) {
+	defer func() {
+		if r := recover(); r != nil {
+			errText = fmt.Sprintf("panic: %v", r)
+		}
+	}()
+	n := w.top.allNodes[fqid]
+	if n == nil {
+		return nil, "", "no node " + fqid
+	}
+	if w.top.rt.Config == nil {
+		w.top.rt.Config = new(RuntimeOptions)
+	}
+	mapped, args, err := n.resolveInputs(nil, keepSplit)
+	var buf bytes.Buffer
+	if e := args.EncodeJSON(&buf); e != nil {
+		buf.WriteString(" ENCODE-ERROR " + e.Error())
+	}
+	if err != nil {
+		errText = err.Error()
+	}
+	return mapped, buf.String(), errText
+}
